@@ -17,7 +17,7 @@ def delimiter_tag(tok):
     if tt is T.Punctuation:
         return {'(': 'lp', ')': 'rp', '[': 'lb', ']': 'rb'}.get(v, 'x')
     if tt is T.Keyword:
-        u = v.upper()
+        u = ' '.join(v.upper().split())      # END<any whitespace>IF is the one keyword END IF
         return {'CASE': 'case', 'END': 'end', 'IF': 'if', 'END IF': 'endif', 'FOR': 'for',
                 'FOREACH': 'for', 'END LOOP': 'endloop', 'BEGIN': 'begin'}.get(u, 'x')
     return 'x'
